@@ -50,7 +50,12 @@ func (fc *FnCtx) execInstr(in ssa.Instruction, st *State) {
 		if v.P != nil && t.IsZero() {
 			fc.unsup("interior pointer converted to interface")
 		}
-		fc.vals[x] = tv(fc.TE.Box(x.X.Type(), t))
+		bx := fc.TE.Box(x.X.Type(), t)
+		if fc.top.boxed == nil {
+			fc.top.boxed = map[string]boxedInfo{}
+		}
+		fc.top.boxed[bx.S] = boxedInfo{typ: x.X.Type(), val: v}
+		fc.vals[x] = tv(bx)
 	case *ssa.MakeClosure:
 		fn := x.Fn.(*ssa.Function)
 		fv := &FnVal{Fn: fn}
@@ -509,6 +514,13 @@ func (fc *FnCtx) makeSlice(st *State, x *ssa.MakeSlice) Val {
 	c := fc.toInt(fc.term(x.Cap))
 	fc.oblige(st, "no-panic", "makeslice", siteOf(fc, x), And(app(SBool, ">=", l, IntLit(0)), app(SBool, ">=", c, l)), "make: 0 <= len <= cap")
 	fc.S.Assume(Implies(st.PC, And(app(SBool, ">=", l, IntLit(0)), app(SBool, ">=", c, l))), "continues only if sizes valid")
+	if _, isConst := x.Cap.(*ssa.Const); !isConst && !fc.TE.BV {
+		// make panics ("cap out of range") when the requested capacity cannot be allocated: a
+		// capacity computed from data (a count read off the wire) must be bounded. Collections
+		// already in memory are assumed to hold at most 2^32 elements.
+		fc.oblige(st, "no-panic", "makeslice-cap", siteOf(fc, x), app(SBool, "<=", c, IntLit(4294967296)), "make: the capacity is bounded (at most 2^32 elements)")
+		fc.S.Assume(Implies(st.PC, app(SBool, "<=", c, IntLit(4294967296))), "continues only if the allocation succeeds")
+	}
 	arr := fc.alloc(st)
 	hv := fc.TE.ElemHeap(et)
 	inner := arrayRange(hv.Sort)
